@@ -186,6 +186,17 @@ func aminoDrive(args []string) error {
 		tr([]int{'A', 'C', 'G', b, b, b})
 		tr([]int{b, b, b, b, b, b})
 	}
+	// strings are byte strings: every well-formed two-byte UTF-8 sequence inside a codon (with one base before or after it), as the
+	// last codon of a short sequence
+	for hi := 0xC2; hi <= 0xDF; hi++ {
+		for lo2 := 0x80; lo2 <= 0xBF; lo2++ {
+			if (hi+lo2)%2 == 0 {
+				tr([]int{'A', 'T', 'G', 'A', hi, lo2})
+			} else {
+				tr([]int{'A', 'T', 'G', hi, lo2, 'a'})
+			}
+		}
+	}
 	// all 64 codons x 8 case patterns
 	up, lo := "ACGT", "acgt"
 	for i := 0; i < 4; i++ {
